@@ -32,5 +32,11 @@ type Void struct{}
 
 // NewHost creates a new extension host.
 func NewHost() *Host {
-	return &Host{Events: &Events{}}
+	h := &Host{Events: &Events{}}
+	// One sequencer for all after-events, so a listener registered under the same name for
+	// stored and deleted events observes them in the order they happened.
+	seq := &asyncSequencer{}
+	h.Events.AfterMessageDeleted.seq = seq
+	h.Events.AfterMessageStored.seq = seq
+	return h
 }
